@@ -118,9 +118,20 @@ def structure_rules(repo, res):
         ok = "eliminate_nonaccepting_states_without_output_transitions" in A.show(a[1]) and "keep_only_states_with_input_transitions" in A.show(a[2]) and a[2][0] == "proj" and a[2][2] == 1
         res.check(ok, "CHAIN", f"CHAIN:{fq}:renumber-args", f"renumber_states(start, trimmed transitions, alive accepting states)", f"{fn.file}:{c['l']}")
     # ---- REP
+    # the representative map is the local that receives `insert(state, <block>.min())`, whatever it is called
+    rep_inserts = []
+    for c in P.find_calls(fn.body, methods={"insert"}):
+        if len(c["args"]) == 2 and "min()" in A.show(A.resolve(c["args"][1], envs.get(id(c)))).replace(" ", ""):
+            r = c["recv"]
+            while r["k"] in ("Ref", "Unary", "Paren"):
+                r = r["expr"]
+            if r["k"] == "Path":
+                rep_inserts.append((c, r["path"]))
+    rep_name = rep_inserts[0][1] if len({n for _, n in rep_inserts}) == 1 else None
+
     def rep_get(p, keypred):
         p = P.peel(p)
-        return p[0] == "mcall" and p[1] == "get" and p[2][0] == "local" and "representative" in p[2][1] and keypred(p[3][0])
+        return p[0] == "mcall" and p[1] == "get" and p[2][0] == "local" and p[2][1] == rep_name and keypred(p[3][0])
 
     ks = [c for c in P.find_calls(fn.body, names={"keep_only_states_with_input_transitions"})]
     if ks:
@@ -128,11 +139,13 @@ def structure_rules(repo, res):
         ok = rep_get(a[0], lambda k: k == ("field", ("param", 0, param), "starting_state"))
         res.check(ok, "REP", f"REP:{fq}:start", f"start state = {A.show(a[0])[:90]}", fn.loc())
         acc = a[2]
-    ins = [c for c in P.find_calls(fn.body, methods={"insert"}) if "accepting_states" in repo.text(fn.file, c["recv"])]
+    # the new accepting set: some insert takes the representative of each element of the old automaton's accepting_states
     ok = False
-    for c in ins:
+    for c in P.find_calls(fn.body, methods={"insert"}):
+        if len(c["args"]) != 1:
+            continue
         v = A.resolve(c["args"][0], envs.get(id(c)))
-        ok = rep_get(v, lambda k: k[0] == "elem" and "accepting_states" in A.show(k))
+        ok = ok or rep_get(v, lambda k: k[0] == "elem" and "accepting_states" in A.show(k))
     res.check(ok, "REP", f"REP:{fq}:accepting", "every accepting state is replaced by its representative", fn.loc())
     ts = [s for s in P.ctor_sites(fn.body, "Transition") if s["k"] == "Struct"]
     ok = len(ts) == 1
@@ -144,7 +157,7 @@ def structure_rules(repo, res):
         ok = rep_get(to, lambda k: k[0] == "proj" and k[2] == 1) and fr[0] == "proj" and fr[2] == 0 and inp[0] == "proj" and inp[2] == 0 and "transitions" in A.show(fr)
     res.check(ok, "REP", f"REP:{fq}:targets", "every transition target is replaced by its representative; source and symbol are kept", fn.loc())
     # representative = min of its block, for every state of every block of the final partition
-    reps = [c for c in P.find_calls(fn.body, methods={"insert"}) if "representative_id_from_state_id" in repo.text(fn.file, c["recv"])]
+    reps = [c for c, _ in rep_inserts]
     ok = len(reps) == 1
     if ok:
         c = reps[0]
@@ -152,7 +165,15 @@ def structure_rules(repo, res):
         loops = [g for g in A.guards_of(c, pm) if g[0]["k"] == "ForLoop"]
         ok = len(loops) == 2 and "min()" in A.show(a[1]).replace(" ", "") and P.peel(a[0])[0] == "call" and "elem" in A.show(a[0])
         if ok:
-            ok = "".join(repo.text(fn.file, loops[1][0]["iter"]).split()) in ("&partitions", "partitions.iter()")
+            # the outer loop walks the partition itself: a local container (the one the refinement loop edits), not a filtered view
+            ie = loops[1][0]["iter"]
+            while ie["k"] in ("Ref", "Unary", "Paren") or (ie["k"] == "MethodCall" and ie["method"] in ("iter", "into_iter") and not ie["args"]):
+                ie = ie["expr"] if ie["k"] != "MethodCall" else ie["recv"]
+            ok = False
+            if ie["k"] == "Path" and "::" not in ie["path"]:
+                df = (envs.get(id(loops[1][0])) or A.fn_env(fn)).get(ie["path"])
+                edited = [c for c in P.find_calls(fn.body, methods={"remove", "insert"}) if c["recv"]["k"] == "Path" and c["recv"]["path"] == ie["path"]]
+                ok = df is not None and df.kind == "let" and len(edited) >= 2
     res.check(ok, "REP", f"REP:{fq}:representative-is-min-of-block", "for every block of `partitions`, every member maps to the block's min()", fn.loc())
     # ---- DEAD
     f2 = repo.fn("dfa::DFA::make_transitions_image")
@@ -198,15 +219,20 @@ def structure_rules(repo, res):
         e3 = A.collect_envs(f3)
         ok = False
         for n in A.walk(f3.body):
-            if n["k"] == "Local" and n["pat"]["k"] == "PIdent" and n["pat"]["name"] == "unallocated_state_id" and n.get("init") is not None:
-                ok = A.resolve(n["init"], e3.get(id(n["init"]))) == ("path", "FIRST_STATE_ID")
+            if n["k"] == "Local" and n.get("init") is not None and A.resolve(n["init"], e3.get(id(n["init"]))) == ("path", "FIRST_STATE_ID"):
+                ok = True  # the state counter (whatever its name) starts there
         res.check(ok, "DEAD", "DEAD:first-id", "dfa_from_regex numbers states from FIRST_STATE_ID", f3.loc())
     # ---- GROUPS: initial partition = non-empty groups, pairwise disjoint by construction
     interns = [c for c in P.find_calls(fn.body, methods={"intern"})]
     init = [c for c in interns if any(g[0]["k"] == "Block" for g in [(pm[id(c)][0], 0)]) or True]
     # the three initial groups
-    txt = "".join(repo.text(fn.file, fn.body).split())
-    diff_ok = "[&all_states,&dfa.accepting_states,&dead_state_group].difference()" in txt
+    # some `[a, b, c].difference()` whose operands are: all states of the automaton, its accepting states, the singleton {dead}
+    diff_ok = False
+    for c in P.find_calls(fn.body, methods={"difference"}):
+        shown = A.show(A.resolve(c["recv"], envs.get(id(c)))).replace(" ", "")
+        parts = shown.strip("[]").split(",")
+        if len(parts) == 3 and "get_all_states()" in parts[0] and parts[1].endswith(".accepting_states") and "DEAD_STATE_ID" in parts[2]:
+            diff_ok = True
     res.check(diff_ok, "GROUPS", f"GROUPS:{fq}:nonaccepting-is-complement", "live non-accepting = all states - accepting - {dead}", fn.loc())
     guarded = 0
     unguarded = []
